@@ -80,6 +80,25 @@ CHECKS = {
         "and indefinite matrices.",
         "Inverse and min-inbreeding only for condition number <= 1e6; Yang reference frequencies in [0.01,0.99]; weights 0 or >= 1e-6.",
         "DESIGN.md §3 C13"),
+    "C14": (
+        "Hypothesis-generated trials and phenotype tables vs label-joined oracles; exact chi-square tests of realised variance components at fixed seeds (alpha budget 1e-9 per run)",
+        "G_E_Phenotyping / TruePhenotyping / MeanPhenotypicBreedingValue / TrueBreedingValue on populations with non-sorted, permuted labels: "
+        "one record per (taxon, environment, replicate) with that taxon's labels; zero variances reproduce the oracle genotypic value joined by "
+        "label; partially-zero variances show the deterministic noise structure (environment effect shared within an environment, etc.); "
+        "set_h2/set_H2 give var_err = (1-h)/h x var_A|G; large trials test error, replicate and environment variance with exact chi-square "
+        "tails; mean-phenotype breeding values equal the fsum mean of each taxon's records, are invariant to row permutation, aligned to the "
+        "genotype matrix's taxon order, NaN exactly for unphenotyped taxa.",
+        "Duplicate taxon names and taxa with more than one group are outside the domain; models with one fixed effect; statistical resolution ~10-25% at the quick tier.",
+        "DESIGN.md §3 C14"),
+    "C15": (
+        "Hypothesis-generated raw matrices and taxa-axis operation programs vs Fraction-exact raw statistics and a value-carrying row model",
+        "Raw (n,t) matrices with constant columns, NaN entries, offsets up to 1e9, tiny spreads through from_numpy of the three breeding-value "
+        "classes: unscale() reproduces the raw values within 8 eps (|location| + scale |mat|), stored columns are standardised (unit scale and "
+        "zeros for constant traits), every summary on the original scale (max/min/range/mean/std/var/arg-extrema) equals the exact raw "
+        "statistic for NaN-free traits; histories of select/delete/insert/adjoin/concat/append/remove/incorp keep every retained taxon's raw "
+        "row and NaN positions; DenseScaledMatrix rescale/unscale/transform/untransform.",
+        "Summaries on NaN-containing traits are not asserted (ambiguous); append/incorp with a bare ndarray not exercised (raw vs scaled ambiguous).",
+        "DESIGN.md §3 C15"),
     "C16": (
         "Hypothesis-generated objects, write histories and VCF text; round-trip / last-writer-wins / copy-independence oracles via a generic observable-state snapshot",
         "Generated objects of 32 classes (optional label arrays present/absent, grouped/ungrouped, non-ASCII labels, 1..3 traits): HDF5 write "
